@@ -98,29 +98,6 @@ func refDepositScriptOK(version uint32, key *relayertypes.PublicKey, magic, evm,
 	return false
 }
 
-// refMerkle: bitcoin Merkle inclusion of leaf at position idx under root, path = concatenated
-// 32-byte siblings, leaves first.
-func refMerkle(leaf, root, path []byte, idx uint32) bool {
-	if len(leaf) != 32 || len(root) != 32 || len(path)%32 != 0 {
-		return false
-	}
-	n := len(path) / 32
-	if n < 32 && idx>>uint(n) != 0 {
-		return false
-	}
-	cur := append([]byte{}, leaf...)
-	for i := 0; i < n; i++ {
-		sib := path[i*32 : i*32+32]
-		if idx&1 == 1 {
-			cur = dsha(append(append([]byte{}, sib...), cur...))
-		} else {
-			cur = dsha(append(append([]byte{}, cur...), sib...))
-		}
-		idx >>= 1
-	}
-	return bytes.Equal(cur, root)
-}
-
 func refTax(value, rate, cap uint64) uint64 {
 	if rate == 0 || value <= 10000 {
 		return 0
@@ -259,7 +236,18 @@ func (w *World) oracleBitcoin(bi *BlockInfo) {
 					if prev != nil && prev.Wd[id] != nil {
 						pst = prev.Wd[id].Status
 					}
-					_ = pst
+					// only what the user asked to cancel may be cancelled
+					asked := pst == bitcointypes.WITHDRAWAL_STATUS_CANCELING
+					if bi.MsgOK && bi.ReqErr == nil {
+						for _, c := range bi.Bridge.Cancel1s {
+							if c.Id == id {
+								asked = true
+							}
+						}
+					}
+					if !asked {
+						w.violate("C05", "cancelled-without-request", "approve-"+pst.String(), "height %d tx %d: cancellation of withdrawal %d approved although its user never asked for it (status before the block: %s)", b.Height, i, id, pst)
+					}
 					o.owe("refund", fmt.Sprintf("%d", id), "cancellation approved", b.Height)
 					if m.Refunded[id] || m.Paid[id] {
 						w.violate("C05", "second-terminal-outcome", "approve-after-terminal", "height %d: cancellation of withdrawal %d approved although it already had a terminal outcome", b.Height, id)
@@ -384,7 +372,7 @@ func (w *World) checkCreditedDeposit(bi *BlockInfo, txi int, msg *bitcointypes.M
 	}
 	if len(hdr) != 80 || !bytes.Equal(dsha(hdr), voted) {
 		fail("header-not-voted", "deposit credited under a submitted header for height %d whose hash is not the voted %x", d.BlockNumber, voted[:6])
-	} else if !refMerkle(txid, hdr[36:68], d.IntermediateProof, d.TxIndex) {
+	} else if !refMerkleVerify(txid, hdr[36:68], d.IntermediateProof, d.TxIndex) {
 		fail("merkle-mismatch", "transaction %x does not hash into the header's Merkle root at position %d with the given path", txid[:6], d.TxIndex)
 	}
 	idx := blk.indexOf(txid)
